@@ -376,6 +376,10 @@ func init() {
 		},
 		"runtime.KeepAlive": func(m *Machine, c *frame, fn *ssa.Function, a []Value) Value { return nil },
 
+		// ---------------- encoding/json by contract (environment): see jsonMarshal/jsonUnmarshal
+		"encoding/json.Marshal":   jsonMarshal,
+		"encoding/json.Unmarshal": jsonUnmarshal,
+
 		// ---------------- iter.Pull: eager model (run the push iterator to completion into a buffer)
 		"iter.Pull": func(m *Machine, c *frame, fn *ssa.Function, a []Value) Value {
 			seq := a[0].(FuncV)
@@ -625,4 +629,154 @@ func (m *Machine) buildCex(kind, label, msg string) *Cex {
 		}
 	}
 	return cx
+}
+
+// ---- encoding/json modelled by its documented contract
+//
+// Marshal(v): a value whose dynamic type has a MarshalJSON method is encoded by calling that method (as the real
+// package does); a nil interface or nil pointer encodes as "null"; any other value gets fresh symbolic bytes of
+// length 2 whose first byte is not 'n' (valid JSON starts with 'n' only for null), and the pair (bytes, value) is
+// remembered. Unmarshal(b, &t): a target type with an UnmarshalJSON method gets that method called; bytes equal
+// to a remembered encoding of a value of t's type decode to exactly that value (dec(enc(v)) = v); any other
+// input is an arbitrary document: either an error (the target may have been modified arbitrarily) or success
+// with an arbitrary value.
+
+type jsonMemo struct {
+	bytes []*sym.Term
+	typ   types.Type
+	val   Value
+}
+
+func (m *Machine) envByte(name string) *sym.Term {
+	n := m.freshName(name)
+	t := m.S.Var(n, 8)
+	m.Tape = append(m.Tape, TapeEntry{Kind: "env", Name: n, T: t, W: 8})
+	return t
+}
+
+func (m *Machine) bytesSlice(bs []*sym.Term) SliceV {
+	arr := make(ArrayV, len(bs))
+	for i, b := range bs {
+		arr[i] = b
+	}
+	return SliceV{Arr: m.newObj(arr, "json bytes", types.Typ[types.Uint8]), Len: len(bs), Cap: len(bs)}
+}
+
+func (m *Machine) methodOf(t types.Type, name string) *ssa.Function {
+	ms := m.E.Prog.MethodSets.MethodSet(t)
+	for i := 0; i < ms.Len(); i++ {
+		if ms.At(i).Obj().Name() == name {
+			return m.E.Prog.MethodValue(ms.At(i))
+		}
+	}
+	return nil
+}
+
+func jsonMarshal(m *Machine, c *frame, fn *ssa.Function, a []Value) Value {
+	v := a[0].(IfaceV)
+	m.note("encoding/json is environment: modelled by contract (injective opaque encodings, dec(enc(v)) = v, arbitrary result on other input)")
+	null := func() Value {
+		return TupleV{m.bytesSlice(m.sb(m.MkStr("null"))), IfaceV{}}
+	}
+	if v.T == nil {
+		return null()
+	}
+	if p, ok := v.V.(PtrV); ok && p.Obj == nil {
+		return null()
+	}
+	if f := m.methodOf(v.T, "MarshalJSON"); f != nil {
+		return m.callSSA(c, f, []Value{v.V}, nil)
+	}
+	b0, b1 := m.envByte("json.enc0"), m.envByte("json.enc1")
+	m.Assume(m.S.Not(m.S.Eq(b0, m.S.Const(8, 'n'))))
+	m.jsonMemos = append(m.jsonMemos, jsonMemo{[]*sym.Term{b0, b1}, v.T, v.V})
+	return TupleV{m.bytesSlice([]*sym.Term{b0, b1}), IfaceV{}}
+}
+
+func (m *Machine) havoc(t types.Type, name string, d int) Value {
+	if d > 4 {
+		return m.Zero(t)
+	}
+	switch u := under(t).(type) {
+	case *types.Basic:
+		if u.Info()&types.IsBoolean != 0 {
+			n := m.freshName(name)
+			tm := m.S.Var(n, 0)
+			m.Tape = append(m.Tape, TapeEntry{Kind: "env", Name: n, T: tm})
+			return tm
+		}
+		if w, _, ok := intInfo(u); ok {
+			n := m.freshName(name)
+			tm := m.S.Var(n, w)
+			m.Tape = append(m.Tape, TapeEntry{Kind: "env", Name: n, T: tm, W: w})
+			return tm
+		}
+		if u.Info()&types.IsString != 0 {
+			return StrV{B: []*sym.Term{m.envByte(name + ".s0")}}
+		}
+	case *types.Struct:
+		s := make(StructV, u.NumFields())
+		for i := range s {
+			s[i] = m.havoc(u.Field(i).Type(), name+"."+u.Field(i).Name(), d+1)
+		}
+		return s
+	case *types.Array:
+		arr := make(ArrayV, int(u.Len()))
+		for i := range arr {
+			arr[i] = m.havoc(u.Elem(), fmt.Sprintf("%s[%d]", name, i), d+1)
+		}
+		return arr
+	}
+	return m.Zero(t) // pointers, slices, maps, interfaces: nil
+}
+
+var jsonErrT types.Type
+
+func jsonUnmarshal(m *Machine, c *frame, fn *ssa.Function, a []Value) Value {
+	bs := a[0].(SliceV)
+	tv := a[1].(IfaceV)
+	mkErr := func(msg string) Value {
+		en := m.E.Prog.ImportedPackage("errors")
+		if en == nil {
+			m.unsupported("json.Unmarshal error without errors package")
+		}
+		return m.callSSA(c, en.Func("New"), []Value{m.MkStr(msg)}, nil)
+	}
+	if tv.T == nil {
+		return mkErr("json: Unmarshal(nil)")
+	}
+	p, ok := tv.V.(PtrV)
+	if !ok {
+		return mkErr("json: Unmarshal(non-pointer)")
+	}
+	if p.Obj == nil {
+		return mkErr("json: Unmarshal(nil pointer)")
+	}
+	if f := m.methodOf(tv.T, "UnmarshalJSON"); f != nil {
+		return m.callSSA(c, f, []Value{tv.V, bs}, nil)
+	}
+	et := under(tv.T).(*types.Pointer).Elem()
+	in := m.sliceElems(bs)
+	for _, mm := range m.jsonMemos {
+		if len(mm.bytes) != len(in) || !types.Identical(mm.typ, et) {
+			continue
+		}
+		eq := m.S.True()
+		for i := range in {
+			eq = m.S.And(eq, m.S.Eq(in[i].(*sym.Term), mm.bytes[i]))
+		}
+		if m.Branch(eq) {
+			m.Store(p, mm.val)
+			return IfaceV{}
+		}
+	}
+	// an arbitrary document
+	if m.Choose(2) == 0 {
+		if m.Choose(2) == 1 {
+			m.Store(p, m.havoc(et, "json.partial", 0))
+		}
+		return mkErr("json: invalid input")
+	}
+	m.Store(p, m.havoc(et, "json.dec", 0))
+	return IfaceV{}
 }
